@@ -23,7 +23,7 @@ from vk.ob import obligation, pick, PARAM, THOROUGH
 HEX = ("00" * 32, "ab" * 32, "ff" * 32)
 NAMES = ("e", "p")
 VALS = ("a", "b", "")
-SHAPE = PARAM % 8
+SHAPE = PARAM % 9
 ALPH = "a'\\\x00%"
 
 
@@ -33,8 +33,8 @@ def _may_sql(f, e):
 
 @obligation(funcs=["storage.db.Subscription.build_query", "storage.db.Subscription.evaluate_filter",
                    "storage.db.DBStorage.process_tags"],
-            params=range(8), timeout=(450, 1500),
-            bounds="PARAM = filter shape: 7 two tag conditions in one filter (event with two tags), 0 ids, 1 authors (+ delegation tag on the event), 2 kinds (1-2 values), 3 since/until, "
+            params=range(9), timeout=(450, 1500),
+            bounds="PARAM = filter shape: 8 a valid ids/authors constraint followed by an unsatisfiable member (empty kinds list, over-long author key), 7 two tag conditions in one filter (event with two tags), 0 ids, 1 authors (+ delegation tag on the event), 2 kinds (1-2 values), 3 since/until, "
                    "4 one tag condition (1-2 values incl. ''), 5 kinds+tag+until, 6 two filters (kinds | tag).  ints symbolic, "
                    "strings by selector from small pools; event: symbolic kind/created_at, 1-2 tags of 1-2 items")
 def ob_sql_where(idsel: int, pksel: int, kind: int, ts: int, tn: int, tv: int, bare: bool, deleg: int,
@@ -45,14 +45,15 @@ def ob_sql_where(idsel: int, pksel: int, kind: int, ts: int, tn: int, tv: int, b
     pre: since is None or 0 <= since < 2145934800
     pre: until is None or 0 <= until < 2145934800
     pre: 0 <= n1 < 2 and 0 <= v1 < 3 and 0 <= v2 < 3
-    pre: SHAPE == 0 or idsel == 0
+    pre: SHAPE in (0, 8) or idsel == 0
     pre: SHAPE == 1 or (pksel == 0 and deleg == 0)
-    pre: SHAPE in (0, 1) or h1 == 0
+    pre: SHAPE in (0, 1, 8) or h1 == 0
     pre: SHAPE in (2, 5, 6) or (k1 == 0 and k2 == 0)
     pre: SHAPE in (3, 5) or (since is None and until is None)
     pre: SHAPE != 5 or since is None
-    pre: SHAPE in (4, 5, 6, 7) or (tn == 0 and tv == 0 and not bare and n1 == 0 and v1 == 0 and v2 == 0)
-    pre: (SHAPE in (2, 4, 7) or not two) and (two or (k2 == 0 and v2 == 0) or SHAPE == 7)
+    pre: SHAPE in (4, 5, 6, 7, 8) or (tn == 0 and tv == 0 and not bare and n1 == 0 and v1 == 0 and v2 == 0)
+    pre: (SHAPE in (2, 4, 7, 8) or not two) and (two or (k2 == 0 and v2 == 0) or SHAPE == 7)
+    pre: SHAPE != 8 or (tn == 0 and tv == 0 and not bare and v1 == 0 and v2 == 0 and k1 == 0 and k2 == 0 and n1 < 2)
     post: _.startswith("ok")
     """
     return where_body(idsel, pksel, kind, ts, tn, tv, bare, deleg, h1, k1, k2, two, since, until, n1, v1, v2)
@@ -86,6 +87,14 @@ def where_body(idsel, pksel, kind, ts, tn, tv, bare, deleg, h1, k1, k2, two, sin
             tags.append(["p", pick(VALS, tv)])
             tags.append(["p", pick(VALS, n1)])
         e["tags"] = tags
+    if SHAPE == 8:
+        # evaluate_filter meets the valid member first and the unsatisfiable one afterwards
+        if two:
+            f["ids"] = [pick(HEX, h1)]
+            f["authors"] = ["ab" * 33]
+        else:
+            f["ids" if n1 == 0 else "authors"] = [pick(HEX, h1)]
+            f["kinds"] = []
     if SHAPE == 6:
         f["kinds"] = [k1]
         filters = [f, dict(ids=None, authors=None, kinds=None, since=None, until=None, tags=[(pick(NAMES, n1), [pick(VALS, v1)])])]
@@ -104,7 +113,7 @@ def where_body(idsel, pksel, kind, ts, tn, tv, bare, deleg, h1, k1, k2, two, sin
         return "row selected although no filter matches: filters %r event %r\n%s" % (filters, e, text)
     if not got and any(nip01.must(x, e) for x in filters):
         return "matching row not selected: filters %r event %r\n%s" % (filters, e, text)
-    return "ok" if got else "ok-nomatch"
+    return "ok" if (got or SHAPE == 8) else "ok-nomatch"
 
 
 def pre_ok(idsel, pksel, kind, ts, tn, tv, bare, deleg, h1, k1, k2, two, since, until, n1, v1, v2):
@@ -114,14 +123,15 @@ def pre_ok(idsel, pksel, kind, ts, tn, tv, bare, deleg, h1, k1, k2, two, since, 
             and (since is None or 0 <= since < 2145934800)
             and (until is None or 0 <= until < 2145934800)
             and (0 <= n1 < 2 and 0 <= v1 < 3 and 0 <= v2 < 3)
-            and (SHAPE == 0 or idsel == 0)
+            and (SHAPE in (0, 8) or idsel == 0)
             and (SHAPE == 1 or (pksel == 0 and deleg == 0))
-            and (SHAPE in (0, 1) or h1 == 0)
+            and (SHAPE in (0, 1, 8) or h1 == 0)
             and (SHAPE in (2, 5, 6) or (k1 == 0 and k2 == 0))
             and (SHAPE in (3, 5) or (since is None and until is None))
             and (SHAPE != 5 or since is None)
-            and (SHAPE in (4, 5, 6, 7) or (tn == 0 and tv == 0 and not bare and n1 == 0 and v1 == 0 and v2 == 0))
-            and ((SHAPE in (2, 4, 7) or not two) and (two or (k2 == 0 and v2 == 0) or SHAPE == 7)))
+            and (SHAPE in (4, 5, 6, 7, 8) or (tn == 0 and tv == 0 and not bare and n1 == 0 and v1 == 0 and v2 == 0))
+            and ((SHAPE in (2, 4, 7, 8) or not two) and (two or (k2 == 0 and v2 == 0) or SHAPE == 7))
+            and (SHAPE != 8 or (tn == 0 and tv == 0 and not bare and v1 == 0 and v2 == 0 and k1 == 0 and k2 == 0 and n1 < 2)))
 
 
 def _lex_fragment(text):
